@@ -91,7 +91,18 @@ def exec_osu(scn):
     from reamber.osu.OsuMap import OsuMap
     r = rng("c01-" + scn["id"])
     out = []
-    tok = {"objs": scn["objs"], "tps": scn["tps"], "samples": scn.get("samples", []), "bg": scn.get("bg", "bg.png")}
+    tps = [dict(t) for t in scn["tps"]]
+    v_ = scn["variant"]
+    if v_ % 5 == 3:
+        # effects carry other bits beside kiai (8 = omit first bar line)
+        for t in tps:
+            t["fx"] = t["fx"] + 8
+    if v_ % 6 == 4:
+        # two uninherited lines on one timestamp: both are tempo points of the file
+        k = next((i for i, t in enumerate(tps) if t["uninh"] == 1), None)
+        if k is not None:
+            tps.insert(k, dict(tps[k], code=tps[k]["code"] * 2, meter=tps[k]["meter"] + 1))
+    tok = {"objs": scn["objs"], "tps": tps, "samples": scn.get("samples", []), "bg": scn.get("bg", "bg.png")}
     lines = concretize(tok, meta_lines(scn["keys"], r, scn["variant"]), style=scn["variant"] % 3)
     ftok = lex([ln.rstrip("\r") for ln in lines])          # what the text says, by the independent lexer
     rec = {"id": scn["id"] + "/read", "op": "read", "cls": "osu.read", "exc": "", "file": ftok, "chart": {}}
@@ -203,7 +214,7 @@ def exec_chart(scn):
     m.tags = r.choice([[], ["a", "b:c"]])
     m.preview_time = r.choice([-1, 1234, 999.6])
     m.background_file_name = "bg file.png"
-    m.samples = OsuSampleList([OsuSample(offset=r.choice([100.0, 2500.7]), sample_file='"ev.wav"', volume=55)]
+    m.samples = OsuSampleList([OsuSample(offset=r.choice([100.0, 2500.7, 1234567.0]), sample_file='"ev.wav"', volume=55)]
                               [:r.randint(0, 1)])
     form = scn["n"] % 4
     if form == 1:
